@@ -25,8 +25,8 @@ type Tape struct {
 	pos    int
 	Rec    []Choice
 	// Mismatch is set in strict mode when kind or bound differ (harness determinism bug).
-	Mismatch string
-	Limit    int // maximum number of choices (0 = none); exceeding sets Exhausted
+	Mismatch  string
+	Limit     int // maximum number of choices (0 = none); exceeding sets Exhausted
 	Exhausted bool
 }
 
